@@ -103,10 +103,12 @@ def probe(detector, _p=None, **user):
         if _active(mask, count):
             raise EXC[b](p.get("msg", "boom"))
         return
-    if kind in ("set", "add", "padd") and not _active(mask, count):
+    if kind in ("set", "cset", "add", "padd") and not _active(mask, count):
         return
     if kind == "set":
         _set(detector, b, base + count, shape, p)
+    elif kind == "cset":
+        _set(detector, b, base, shape, p)
     elif kind == "add":
         _add(detector, b, base + count, shape, p)
     elif kind == "padd":
